@@ -282,12 +282,17 @@ def apply_random_op(node, rng, res):
             tdata = np.round(rng.uniform(-1, 1, size=tshape), 2)
             g2 = g2 + Tensor(tdata, OrderedDict((n, Bint[in2[n][0]]) for n in tnames))
             ref2 = (lambda d=spec.dense, tdata=tdata, tnames=tnames: (lambda env: d(env) + float(tdata[tuple(int(env[n]) for n in tnames)])))()
-        new_inputs = OrderedDict((n, (size + size2, ()) if n == k else d) for n, d in inputs.items())
+        # the concatenated name is the parts' own name, or a new one (part_name != name)
+        cname = k if rng.random() < 0.5 or (k + "c") in inputs else k + "c"
+        new_inputs = OrderedDict((cname if n == k else n, (size + size2, ()) if n == k else d) for n, d in inputs.items())
 
-        def cref(env, ref=ref, ref2=ref2, size=size, k=k):
-            i = int(env[k])
-            return ref(env) if i < size else ref2({**env, k: i - size})
+        def cref(env, ref=ref, ref2=ref2, size=size, k=k, cname=cname):
+            i = int(env[cname])
+            rest = {a: b for a, b in env.items() if a != cname}
+            return ref({**rest, k: i}) if i < size else ref2({**rest, k: i - size})
 
+        if cname != k:
+            return "cat", Node(Cat(cname, (f, g2), k), cref, new_inputs, node.desc + " Cat[%s<-%s](., G[%s])" % (cname, k, spec.label))
         return "cat", Node(Cat(k, (f, g2)), cref, new_inputs, node.desc + " Cat[%s](., G[%s])" % (k, spec.label))
     return None
 
